@@ -355,6 +355,24 @@ func resolveWith(v ssa.Value, params bool) ssa.Value {
 		if !ok || u.Op != token.MUL {
 			return v
 		}
+		if fa, isFA := u.X.(*ssa.FieldAddr); isFA && resolveObjFields {
+			// a field of a struct object that is only ever accessed field by field (the locals of a
+			// function grouped into a struct, its closures turned into methods): the field is a
+			// variable cell like a captured local; one store -> the value stored
+			base := resolveWith(fa.X, params)
+			if c, isCall := base.(*ssa.Call); isCall {
+				if al := freshResult(c); al != nil {
+					base = al // x := newT(...): the object the constructor allocates
+				}
+			}
+			if obj, isObj := base.(*ssa.Alloc); isObj {
+				if sts, closed := objFieldStores(obj, fa.Field); closed && len(sts) == 1 {
+					v = sts[0].Val
+					continue
+				}
+			}
+			return v
+		}
 		var cell ssa.Value = u.X
 		if fv, isFV := cell.(*ssa.FreeVar); isFV {
 			// follow captures only (not parameters) to the variable cell
@@ -837,4 +855,191 @@ func liveFuncs(all []*ssa.Function) []*ssa.Function {
 		}
 	}
 	return out
+}
+
+// resolveObjFields makes resolve follow loads of fields of non-escaping local struct objects
+// (objFieldStores). Switched on by the C07 table only; the other tables sharing these helpers
+// anchor on "field:T.f" identities of such loads.
+var resolveObjFields bool
+
+// objFieldStores lists every store to field #field of the struct object allocated by obj, and
+// reports whether that list is complete: the object's pointer is only used to select fields, is
+// bound into closures / bound-method wrappers and handed as an argument to functions of the
+// package (go, defer and plain calls) in which the same holds for it, or sits in a local variable
+// cell that is only loaded, stored and captured; the field's address is only loaded from and
+// stored to. A pointer that is stored anywhere else, converted, merged by a phi, passed to a
+// dynamic callee or to another package, or overwritten as a whole makes the answer incomplete.
+func objFieldStores(obj *ssa.Alloc, field int) (stores []*ssa.Store, closed bool) {
+	pt, ok := obj.Type().Underlying().(*types.Pointer)
+	if !ok {
+		return nil, false
+	}
+	if _, isStruct := pt.Elem().Underlying().(*types.Struct); !isStruct {
+		return nil, false
+	}
+	pkg := pkgOf(obj.Parent())
+	closed = true
+	seen := map[ssa.Value]bool{}
+	var visit, visitCell func(v ssa.Value)
+	visitCell = func(c ssa.Value) {
+		if c == nil || seen[c] || !closed {
+			return
+		}
+		seen[c] = true
+		if c.Referrers() == nil {
+			closed = false
+			return
+		}
+		for _, r := range *c.Referrers() {
+			switch x := r.(type) {
+			case *ssa.DebugRef:
+			case *ssa.Store:
+				if x.Addr != c {
+					closed = false
+				}
+			case *ssa.UnOp:
+				if x.Op != token.MUL {
+					closed = false
+					return
+				}
+				visit(x)
+			case *ssa.MakeClosure:
+				fn := x.Fn.(*ssa.Function)
+				for i, b := range x.Bindings {
+					if b == c && i < len(fn.FreeVars) {
+						visitCell(fn.FreeVars[i])
+					}
+				}
+			default:
+				closed = false
+			}
+		}
+	}
+	visit = func(v ssa.Value) {
+		if v == nil || seen[v] || !closed {
+			return
+		}
+		seen[v] = true
+		if v.Referrers() == nil {
+			closed = false
+			return
+		}
+		for _, r := range *v.Referrers() {
+			switch x := r.(type) {
+			case *ssa.DebugRef:
+			case *ssa.FieldAddr:
+				if x.Field != field {
+					continue
+				}
+				if x.Referrers() == nil {
+					closed = false
+					return
+				}
+				for _, rr := range *x.Referrers() {
+					switch y := rr.(type) {
+					case *ssa.DebugRef:
+					case *ssa.Store:
+						if y.Addr != ssa.Value(x) {
+							closed = false
+							return
+						}
+						stores = append(stores, y)
+					case *ssa.UnOp:
+						if y.Op != token.MUL {
+							closed = false
+							return
+						}
+					default:
+						closed = false
+						return
+					}
+				}
+			case *ssa.UnOp:
+				if x.Op != token.MUL { // a whole-struct read does not write
+					closed = false
+					return
+				}
+			case *ssa.BinOp: // comparison with nil
+			case *ssa.Store:
+				al, isCell := x.Addr.(*ssa.Alloc)
+				if x.Val != v || !isCell {
+					closed = false // overwritten as a whole, or stored into something that is not a local variable
+					return
+				}
+				visitCell(al)
+			case *ssa.MakeClosure:
+				fn := x.Fn.(*ssa.Function)
+				if fn.Blocks == nil {
+					closed = false
+					return
+				}
+				for i, b := range x.Bindings {
+					if b == v && i < len(fn.FreeVars) {
+						visit(fn.FreeVars[i])
+					}
+				}
+			case *ssa.Return:
+				// the constructor hands the object to its callers: followed into each of them
+				g := x.Parent()
+				ix := indexOf(pkg)
+				if len(x.Results) != 1 || ix == nil || g.Parent() != nil || g.Object() == nil || g.Object().Exported() || g.Synthetic != "" || ix.valueUse[g] {
+					closed = false
+					return
+				}
+				for _, site := range ix.sites[g] {
+					if c, isCall := site.(*ssa.Call); isCall {
+						visit(c)
+					}
+				}
+			case ssa.CallInstruction:
+				cc := x.Common()
+				g := cc.StaticCallee()
+				if cc.Value == v || g == nil || g.Blocks == nil || pkgOf(g) != pkg || pkg == nil || g.Signature.Variadic() {
+					closed = false
+					return
+				}
+				for i, a := range cc.Args {
+					if a == v {
+						if i >= len(g.Params) {
+							closed = false
+							return
+						}
+						visit(g.Params[i])
+					}
+				}
+			default:
+				closed = false
+				return
+			}
+		}
+	}
+	visit(obj)
+	if !closed {
+		return nil, false
+	}
+	return stores, true
+}
+
+// freshResult: the call of an unexported in-package constructor whose every return hands out
+// the struct object it allocates itself (x := newT(...)) - the allocation, else nil.
+func freshResult(c *ssa.Call) *ssa.Alloc {
+	g := c.Call.StaticCallee()
+	if g == nil || g.Blocks == nil || g.Parent() != nil || g.Object() == nil || g.Object().Exported() || g.Synthetic != "" || g.Signature.Results().Len() != 1 {
+		return nil
+	}
+	var obj *ssa.Alloc
+	for _, b := range g.Blocks {
+		for _, in := range b.Instrs {
+			ret, ok := in.(*ssa.Return)
+			if !ok {
+				continue
+			}
+			al, isAl := resolveLocal(ret.Results[0]).(*ssa.Alloc)
+			if !isAl || al.Parent() != g || !al.Heap || (obj != nil && obj != al) {
+				return nil
+			}
+			obj = al
+		}
+	}
+	return obj
 }
